@@ -36,7 +36,7 @@ def gen_sched(r, seed_tag, est_steps=4000, victims=("read", "send", "print", "ma
         s["p"] = r.choice([0.0, 0.01, 0.03])
         s["p_hot"] = r.choice([0.2, 0.5, 0.8])
         s["pp"] = r.choice([0.1, 0.3, 0.6])
-        s["p_stall"] = r.choice([0.0, 0.3, 0.6])
+        s["p_stall"] = r.choice([0.0, 0.15, 0.4])
         s["stall_max"] = r.choice([0.002, 0.05, 0.15, 0.4])
         return s
     if u < 0.70:
